@@ -512,6 +512,9 @@ C18_IdleAtLeastOne == RunningAtRest => E.idle >= 1
 MinIdle == Max({(Min(concNow) * (IF hdr.ratio = 0 THEN 1 ELSE hdr.ratio)) \div 100, 1})
 C18_Trimmed == RunningAtRest /\ hdr.expiry > 0 /\ E.settled => E.idle <= Max({(Max(concNow) * (IF hdr.ratio = 0 THEN 1 ELSE hdr.ratio)) \div 100, 1})
 C18_NoLeak == Quiescent /\ ~overlap /\ ws = "stopped" /\ E.wss = "Stopped" /\ E.blocked = <<>> => E.cloop = 0 /\ E.cpool = 0 /\ E.creaper = 0 /\ E.cctxl = 0
+\* TunePool (and trimming) neither loses nor duplicates jobs
+C18_KeepsJobs == /\ \A j \in Jobs : enters[j] <= 1
+                 /\ RunningAtRest /\ NoUnknown => \A j \in Jobs : Accepted(j) /\ ~Excused(j) => exits[j] = 1
 C18_OneLoop == RunningAtRest /\ ~overlap => E.cloop = 1 /\ E.creaper = (IF hdr.expiry > 0 THEN 1 ELSE 0) /\ E.cctxl <= (IF hdr.ctx THEN 1 ELSE 0)
 
 ---- \* a panic of the library that kills the process is a failure of whatever the episode was to show: the calls in progress never
